@@ -389,4 +389,154 @@ Proof.
     intros [(? & E & _)|[(? & E & _)|[(? & E & _)|(? & E & _)]]]; inversion E].
 Qed.
 
+Lemma law_PRecvDone s p rv m s' outs :
+  PInv s -> op_ok s (PRecvDone p rv m) -> pair_step k fx s (PRecvDone p rv m) = (s', outs) -> StepLaw s (PRecvDone p rv m) s' outs.
+Proof.
+  intros HI Hok H. cbn [pair_step] in H. pose proof HI as (I1 & I2 & I3 & I4 & I5 & I6 & I7).
+  open_state s. destruct (N.eqb_spec rv 0) as [->|Hrv]; cbn [negb] in H.
+  2:{ inversion H; subst; clear H. repeat split; auto; leaf. }
+  destruct (Hok eq_refl) as [HP HR]. subst p0 rd.
+  destruct (rx_decode k ttl m) as [| |m'] eqn:ED.
+  - inversion H; subst; clear H. repeat split; auto; leaf.
+  - inversion H; subst; clear H. repeat split; auto; leaf.
+  - destruct raq as [|a rest].
+    + destruct (lmq_full rmq rcap) eqn:F; cbn [negb] in H; inversion H; subst; clear H; simp_r.
+      * repeat split; auto; leaf.
+      * unfold lmq_full in F. apply Nat.leb_gt in F. repeat split; auto; leaf.
+        all: try solve [rewrite app_length; cbn; lia].
+    + assert (RQ: rmq = []) by (apply I3; discriminate). subst rmq.
+      inversion H; subst; clear H; simp_r. cbn [pacc pdelivered]. change (E_OK =? 0)%N with true. cbn iota.
+      repeat split; auto; leaf.
+Qed.
+
+Lemma law_PSendDone s p rv s' outs :
+  PInv s -> op_ok s (PSendDone p rv) -> pair_step k fx s (PSendDone p rv) = (s', outs) -> StepLaw s (PSendDone p rv) s' outs.
+Proof.
+  intros HI Hok H. cbn [pair_step] in H. pose proof HI as (I1 & I2 & I3 & I4 & I5 & I6 & I7).
+  destruct (N.eqb_spec rv 0) as [->|Hrv]; cbn [negb] in H.
+  - (* success: the transport consumed the message; send_sched *)
+    destruct Hok as [Hin HP]. specialize (HP eq_refl).
+    assert (WR: pr_wr s = false).
+    { destruct (pr_wr s) eqn:W; auto. destruct (I1 eq_refl) as (A & _). rewrite HP in A. contradiction. }
+    set (s0 := mkPair (pr_p s) (pr_ttl s) (pr_wmq s) (pr_wcap s) (pr_waq s) (pr_rmq s) (pr_rcap s) (pr_raq s) (pr_rd s) (pr_wr s)
+                      (set_snd (pr_sending s) p None) (pr_readable s) (pr_writable s)) in *.
+    destruct (sched_law s0 p (PSendDone p 0) s' outs ltac:(intros; discriminate) HP (set_snd_none_notin _ _) WR I4 I6
+                (set_snd_none_nodup _ _ I7) H)
+      as ((J1 & J2 & J3 & J4) & (F1 & F2 & F3 & F4 & F5 & F6 & F7 & F8) & C2 & C1 & FR & DL & TS & TR & CP & _).
+    unfold s0 in *; simp_r. unfold StepLaw, PInv, paccepted, inq, rdl, sendingl, wloss, rloss, wire_taken, snd_freed, arrived_ok, rx_rejected. simp_r.
+    rewrite N.eqb_refl. rewrite F1, F4, F5, F6, F7, FR, DL, HP.
+    split; [|split; [|split; [|split; [|split; [|split; [|split; [|split]]]]]]]; auto.
+    + repeat split; auto; try discriminate; try solve [apply J1; assumption]; try solve [apply I2; assumption]; try solve [apply I3; assumption].
+    + rewrite C1. now rewrite !app_nil_r.
+    + intros x. specialize (C2 x). pose proof (cnt_set_snd_none x (pr_sending s) p) as P. unfold sendingl in *. simp_r. msimp. lia.
+    + intros x. msimp. lia.
+    + intros _. now rewrite app_nil_r.
+    + cbn [app]. rewrite app_nil_r. apply sublist_refl.
+    + intros x. msimp. lia.
+    + intros q m Hq. f_equal. symmetry. eapply TS; eauto.
+    + intros q Hq. exfalso. eapply TR; eauto.
+  - (* failure: the message is freed, the pipe closed; no socket state is touched *)
+    destruct Hok as [Hin _]. open_state s. inversion H; subst; clear H; simp_r.
+    destruct (N.eqb_spec rv 0); [contradiction|].
+    rewrite !pacc_app, !pdelivered_app, !txs_app, !freed_app, !pacc_map_Free, !pdelivered_map_Free, !txs_map_Free, !freed_map_Free.
+    cbn [pacc pdelivered txs freed app]. repeat split; auto; leaf.
+    all: try solve [use_I1; destruct p0; auto; apply notin_set_snd_none; auto].
+    all: try solve [apply set_snd_none_nodup; auto].
+    all: try solve [intros x; pose proof (cnt_set_snd_none x sn p) as P; msimp; lia].
+    all: try solve [intros q m Hq; exfalso; revert Hq; rewrite in_app_iff, in_map_iff; intros [(? & E & _)|[E|[]]]; inversion E].
+    all: try solve [intros q Hq; exfalso; revert Hq; rewrite in_app_iff, in_map_iff; intros [(? & E & _)|[E|[]]]; inversion E].
+Qed.
+
+Lemma law_PPipeStart s p peer s' outs :
+  PInv s -> op_ok s (PPipeStart p peer) -> pair_step k fx s (PPipeStart p peer) = (s', outs) -> StepLaw s (PPipeStart p peer) s' outs.
+Proof.
+  intros HI Hok H. cbn [pair_step] in H. pose proof HI as (I1 & I2 & I3 & I4 & I5 & I6 & I7).
+  destruct (negb (peer =? pair_peer k)%N).
+  { inversion H; subst. apply law_trivial; auto; try reflexivity; try (intros ? ? [E|[]]; inversion E); try (intros ? [E|[]]; inversion E). }
+  destruct (pr_p s) as [q|] eqn:EP.
+  { inversion H; subst. apply law_trivial; auto; try reflexivity; try (intros ? ? [E|[]]; inversion E); try (intros ? [E|[]]; inversion E). }
+  assert (WR: pr_wr s = false).
+  { destruct (pr_wr s) eqn:W; auto. destruct (I1 eq_refl) as (A & _). rewrite EP in A. contradiction. }
+  assert (RD: pr_rd s = None).
+  { destruct (pr_rd s) eqn:R; auto. destruct I2 as [A _]; [discriminate|]. congruence. }
+  set (s1 := mkPair (Some p) (pr_ttl s) (pr_wmq s) (pr_wcap s) (pr_waq s) (pr_rmq s) (pr_rcap s) (pr_raq s) None (pr_wr s)
+                    (pr_sending s) (pr_readable s) (pr_writable s)) in *.
+  destruct (pair_send_sched k s1) as [s2 o2] eqn:SS. inversion H; subst; clear H.
+  cbn [op_ok] in Hok.
+  destruct (sched_law s1 p (PPipeStart p peer) s' o2 ltac:(intros; discriminate) eq_refl Hok WR I4 I6 I7 SS)
+    as ((J1 & J2 & J3 & J4) & (F1 & F2 & F3 & F4 & F5 & F6 & F7 & F8) & C2 & C1 & FR & DL & TS & TR & CP & _).
+  unfold s1 in *; simp_r. unfold StepLaw, PInv, paccepted, inq, rdl, sendingl, wloss, rloss, wire_taken, snd_freed, arrived_ok, rx_rejected. simp_r.
+  rewrite !pacc_app, !pdelivered_app, !txs_app, !freed_app. cbn [pacc pdelivered txs freed].
+  rewrite F1, F4, F5, F6, F7, FR, DL, RD.
+  split; [|split; [|split; [|split; [|split; [|split; [|split; [|split]]]]]]]; auto.
+  + repeat split; auto; try discriminate; try congruence; try solve [apply J1; assumption]; try solve [apply I2; assumption]; try solve [apply I3; assumption].
+  + rewrite !app_nil_r. rewrite C1. reflexivity.
+  + intros x. specialize (C2 x). unfold sendingl in *. simp_r. msimp. lia.
+  + intros x. msimp. lia.
+  + intros _. now rewrite !app_nil_r.
+  + cbn [app]. rewrite !app_nil_r. apply sublist_refl.
+  + intros x. unfold attached. rewrite EP. msimp. lia.
+  + intros q m Hq. apply in_app_or in Hq as [Hq|[E|[]]]; [|inversion E]. f_equal. symmetry. eapply TS; eauto.
+  + intros q Hq. apply in_app_or in Hq as [Hq|[E|[]]]; [exfalso; eapply TR; eauto|]. inversion E. reflexivity.
+Qed.
+
+Lemma law_PSetOpt s c op s' outs :
+  PInv s -> pair_step k fx s (PSetOpt c op) = (s', outs) -> StepLaw s (PSetOpt c op) s' outs.
+Proof.
+  intros HI H. cbn [pair_step] in H. pose proof HI as (I1 & I2 & I3 & I4 & I5 & I6 & I7).
+  destruct op;
+    try (inversion H; subst; apply law_trivial; auto; try reflexivity; try (intros ? ? [E|[]]; inversion E); try (intros ? [E|[]]; inversion E); fail).
+  - (* send buffer *)
+    destruct (PAIR_BUF_MAX <? N.of_nat n)%N eqn:EB.
+    { inversion H; subst. apply law_trivial; auto; try reflexivity; try (intros ? ? [E|[]]; inversion E); try (intros ? [E|[]]; inversion E).
+      cbn [wloss]. now rewrite EB. }
+    open_state s. rewrite EB. inversion H; subst; clear H; simp_r.
+    rewrite !pacc_app, !pdelivered_app, !txs_app, !freed_app, !pacc_map_Free, !pdelivered_map_Free, !txs_map_Free, !freed_map_Free.
+    cbn [pacc pdelivered txs freed app]. repeat split; auto; leaf.
+    all: try solve [use_I1; now rewrite firstn_nil].
+    all: try solve [rewrite firstn_length; lia].
+    all: try solve [rewrite !app_nil_r; now rewrite firstn_skipn].
+    all: try solve [intros q m Hq; exfalso; revert Hq; rewrite in_app_iff, in_map_iff; intros [(? & E & _)|[E|[]]]; inversion E].
+    all: try solve [intros q Hq; exfalso; revert Hq; rewrite in_app_iff, in_map_iff; intros [(? & E & _)|[E|[]]]; inversion E].
+  - (* receive buffer *)
+    destruct (PAIR_BUF_MAX <? N.of_nat n)%N eqn:EB.
+    { inversion H; subst. apply law_trivial; auto; try reflexivity; try (intros ? ? [E|[]]; inversion E); try (intros ? [E|[]]; inversion E).
+      cbn [rloss]. now rewrite EB. }
+    open_state s. rewrite EB. inversion H; subst; clear H; simp_r.
+    rewrite !pacc_app, !pdelivered_app, !txs_app, !freed_app, !pacc_map_Free, !pdelivered_map_Free, !txs_map_Free, !freed_map_Free.
+    cbn [pacc pdelivered txs freed app]. repeat split; auto; leaf.
+    all: try solve [intros R; rewrite (I3 R); now rewrite firstn_nil].
+    all: try solve [rewrite firstn_length; lia].
+    all: try solve [intros x; rewrite <- (firstn_skipn n rmq) at 1; msimp; lia].
+    all: try solve [intros E; rewrite !app_nil_r; rewrite <- (firstn_skipn n rmq) at 1; rewrite E; now rewrite app_nil_r].
+    all: try solve [rewrite !app_nil_r; apply sublist_app; [apply sublist_firstn|apply sublist_refl]].
+    all: try solve [intros q m Hq; exfalso; revert Hq; rewrite in_app_iff, in_map_iff; intros [(? & E & _)|[E|[]]]; inversion E].
+    all: try solve [intros q Hq; exfalso; revert Hq; rewrite in_app_iff, in_map_iff; intros [(? & E & _)|[E|[]]]; inversion E].
+  - (* ttl *)
+    destruct k.
+    { inversion H; subst. apply law_trivial; auto; try reflexivity; try (intros ? ? [E|[]]; inversion E); try (intros ? [E|[]]; inversion E). }
+    destruct ((n <? PAIR_TTL_MIN) || (PAIR_TTL_MAX <? n)).
+    { inversion H; subst. apply law_trivial; auto; try reflexivity; try (intros ? ? [E|[]]; inversion E); try (intros ? [E|[]]; inversion E). }
+    open_state s. inversion H; subst; clear H; simp_r. repeat split; auto; leaf.
+Qed.
+
+Theorem pair_step_law s o s' outs :
+  PInv s -> op_ok s o -> pair_step k fx s o = (s', outs) -> StepLaw s o s' outs.
+Proof.
+  intros HI Hok H.
+  destruct o as [c a nb m|c a nb|a rv|p peer|p|p rv|p rv m| c op|c|c| |now].
+  - eapply law_PSend; eauto.
+  - eapply law_PRecv; eauto.
+  - eapply law_PCancel; eauto.
+  - eapply law_PPipeStart; eauto.
+  - eapply law_PPipeClose; eauto.
+  - eapply law_PSendDone; eauto.
+  - eapply law_PRecvDone; eauto.
+  - eapply law_PSetOpt; eauto.
+  - cbn [pair_step] in H. inversion H; subst. apply law_trivial; auto; try reflexivity; try (intros ? ? [E|[]]; inversion E); try (intros ? [E|[]]; inversion E).
+  - cbn [pair_step] in H. inversion H; subst. apply law_trivial; auto; try reflexivity; try (intros ? ? []); try (intros ? []).
+  - eapply law_PSockClose; eauto.
+  - cbn [pair_step] in H. inversion H; subst. apply law_trivial; auto; try reflexivity; try (intros ? ? []); try (intros ? []).
+Qed.
+
 End Pair.
